@@ -199,10 +199,21 @@ def run(ctx, model):
         if d is not None:
             ctx.violations.append({"signature": {"class": "decode-mismatch", "space": f"{c['bits']},{c['third']}"},
                                    "what": f"display_only output does not decode to the full ID: {d}", "case": {"kind": "display", "case": c, "screen": [W, H, x0, y0]}})
+    # the space an id is taken from (and the features used to print it) after id_space was re-assigned on the live terminal
+    # object is the one of a terminal constructed with the new value
+    import c08_cli
+    c08_cli.reconfigure_equivalence(ctx, cov, ctx.pick(16, 80), must_change=["id_space", "fewer_diacritics"])
     return cov
 
 
 def replay(ctx, model, rec):
+    if rec.get("case", {}).get("kind") == "reconfigure":
+        import c08_cli
+        n0 = len(ctx.violations)
+        c08_cli.reconfigure_equivalence(ctx, common.Coverage("replay"), 60, must_change=["id_space", "fewer_diacritics"])
+        mine = ctx.violations[n0:]
+        del ctx.violations[n0:]
+        return {"violates": bool(mine), "violations": [v["what"] for v in mine][:3]}
     case = rec["case"]
     if case.get("kind") != "display":
         return {"violates": False, "note": "unknown replay kind"}
